@@ -837,7 +837,7 @@ theorem flatMap_map_fdat (ds : List Bytes) :
 theorem parseN_serN (e : NormalEntry) (h : e.WF) : parseN (serN e) = .ok e.recut := by
   obtain ⟨hmaj, hmin, hk, hc, he, hm, hu, hs, hex, hph, hsz, hct, hmt, hat, hpm, hxa⟩ := h
   have hdec : decFHED (encFHED e.header) = .ok e.header :=
-    decFHED_encFHED e.header (by rw [hmaj, hmin]) (by rw [hmin]; decide) hk hc he hm hu hs
+    decFHED_encFHED e.header (by rw [hmaj]; decide) (by rw [hmin]; decide) hk hc he hm hu hs
   have r1 := NRun.single (nStep_FHED {} e.header hdec)
   have r2 := r1.append (NRun_extras _ e.extra hex)
   dsimp only at r2
